@@ -8,12 +8,20 @@ from .. import core, treerun, treegen
 NAMES = [b'a', b'b', b'build', b'src', b'x.o', b'y.o', b'keep.o', b'main.c', b'.hidden', b'.gitignore2', b'top', b'doc', b'q', b'ab', b'target', b'z']
 
 
-def gen_tree(rng, sc, base, depth):
+def gen_tree(rng, sc, base, depth, links=False):
     out = []
-    for n in rng.sample(NAMES, rng.randint(1, 5)):
+    names = rng.sample(NAMES, rng.randint(1, 5))
+    dirs = []
+    for n in names:
         p = base + b'/' + n
-        if rng.random() < 0.35 and depth > 0:
-            sc.d(p); out.append((p, True)); out += gen_tree(rng, sc, p, depth - 1)
+        r = rng.random()
+        if r < 0.35 and depth > 0:
+            sc.d(p); out.append((p, True)); dirs.append(n); out += gen_tree(rng, sc, p, depth - 1, links)
+        elif links and r < 0.6 and len(names) > 1:
+            # a symbolic link to a sibling (directory or file, possibly created later or never: dangling); git and xcp treat
+            # it as a non-directory entry, it is never descended into, and its later siblings must still be visited
+            t = rng.choice([x for x in names if x != n])
+            sc.l(p, t if rng.random() < 0.8 else b'./' + t); out.append((p, False))
         else:
             sc.f(p); out.append((p, False))
     return out
@@ -45,11 +53,15 @@ def gen(rng, driver, i):
     nsrc = rng.choice([1, 1, 1, 2, 3])
     root_names = rng.sample([b'S', b'build', b'q', b'src', b'a', b'T2'], nsrc)      # a root's own name may match a pattern (F16)
     use = rng.random() < 0.9
+    sc.links = rng.random() < 0.4
+    # --dereference on a link-free tree changes nothing in what is selected, but the source is then canonicalised: the
+    # patterns must still be anchored at the source as spelled (relative, ./, absolute)
+    sc.deref = (not sc.links) and rng.random() < 0.25
     sc.gis = []
     for root_name in root_names:
         src = b'/W/' + root_name
         sc.d(src)
-        ents = gen_tree(rng, sc, src, rng.randint(1, 3))
+        ents = gen_tree(rng, sc, src, rng.randint(1, 3), links=sc.links)
         lines = []
         present = sorted({p.split(b'/')[-1] for p, _ in ents})
         for _ in range(rng.choice([0, 1, 1, 2, 3, 4, 5])):
@@ -60,8 +72,8 @@ def gen(rng, driver, i):
         if has_file:
             sc.f(src + b'/.gitignore', text=text); ents.append((src + b'/.gitignore', False))
         sc.gis.append(dict(src=src, ents=ents, text=text if has_file else b'', use=use, name=root_name))
-    sc.opts = ['r'] + (['gitignore'] if use else [])
-    sc.paths = root_names + [b'DEST']
+    sc.opts = ['r'] + (['gitignore'] if use else []) + (['L'] if sc.deref else [])
+    sc.paths = [treegen.spell_path(rng, b'/W', b'/W/' + n, rng.choice(['plain', 'plain', 'dot', 'abs', 'updown', 'slash'])) for n in root_names] + [b'DEST']
     sc.gi = sc.gis[0]
     return sc
 
@@ -92,7 +104,20 @@ def run(ctx):
     c0.d(b'/W/DEST')
     c0.gi = dict(name=b'build', src=b'/W/build', ents=[(b'/W/build/src', True), (b'/W/build/src/a', False), (b'/W/build/x.o', False), (b'/W/build/.gitignore', False)], text=b'build/\n*.o\n', use=True)
     c0.gis = [c0.gi]
-    scs = [c0] + [gen(rng, ['parfile', 'parblock'][i % 2], i) for i in range(n)]
+    # corpus: the repaired defect F19 (a directory-only pattern must not exclude a symbolic link to a directory), with later siblings
+    c1 = treerun.Scn(); c1.d(b'/W').d(b'/W/S').d(b'/W/S/real').f(b'/W/S/real/f').l(b'/W/S/lnk', b'real').l(b'/W/S/flnk', b'real/f').f(b'/W/S/zlast').d(b'/W/S/zdir').f(b'/W/S/zdir/in')
+    c1.f(b'/W/S/.gitignore', text=b'lnk/\nflnk/\n'); c1.d(b'/W/DEST'); c1.opts = ['r', 'gitignore']; c1.paths = [b'S', b'DEST']
+    c1.gi = dict(name=b'S', src=b'/W/S', text=b'lnk/\nflnk/\n', use=True,
+                 ents=[(b'/W/S/real', True), (b'/W/S/real/f', False), (b'/W/S/lnk', False), (b'/W/S/flnk', False), (b'/W/S/zlast', False), (b'/W/S/zdir', True), (b'/W/S/zdir/in', False), (b'/W/S/.gitignore', False)])
+    c1.gis = [c1.gi]
+    # corpus: an EXCLUDED symbolic link to a directory must not end the visit of its parent (later siblings are still copied)
+    c2 = treerun.Scn(); c2.d(b'/W').d(b'/W/S').d(b'/W/S/rel').d(b'/W/S/rel/v2').f(b'/W/S/rel/v2/x').l(b'/W/S/current', b'rel/v2')
+    ents2 = [(b'/W/S/rel', True), (b'/W/S/rel/v2', True), (b'/W/S/rel/v2/x', False), (b'/W/S/current', False)]
+    for j in range(12):
+        c2.f(b'/W/S/sib%d' % j); ents2.append((b'/W/S/sib%d' % j, False))
+    c2.f(b'/W/S/.gitignore', text=b'/current\n'); ents2.append((b'/W/S/.gitignore', False)); c2.d(b'/W/DEST'); c2.opts = ['r', 'gitignore']; c2.paths = [b'S', b'DEST']
+    c2.gi = dict(name=b'S', src=b'/W/S', text=b'/current\n', use=True, ents=ents2); c2.gis = [c2.gi]
+    scs = [c0, c1, c2] + [gen(rng, ['parfile', 'parblock'][i % 2], i) for i in range(n)]
     runs = []
     with core.Scratch('c17') as base:
         for i, sc in enumerate(scs):
@@ -136,7 +161,7 @@ def run(ctx):
                                                       correspondence='xcp --gitignore vs the Lean gitignore specification (Xcp.Gi) inside Xcp.L1run; git agrees with xcp on this case'),
                           f'the Lean gitignore specification disagrees with xcp and git on {g["text"]!r}: {treerun.diff_tokens(o.after, toks, 3)}', no_input=True)
     ctx.cov['rule'] = ('trees of depth <= 3 over a small name pool (incl. dotfiles; the root named S/build/q/src/a so that patterns may match the root itself) x .gitignore of 0-5 lines from the fragment '
-                       '(literal, *x, x*, ???, a/b, **/x, a/**, a/**/x, *, *.o, optional leading /, trailing /, !), comments, blank lines; option on/off; file present/absent; both drivers. '
+                       '(literal, *x, x*, ???, a/b, **/x, a/**, a/**/x, *, *.o, optional leading /, trailing /, !), comments, blank lines; option on/off; file present/absent; optional symbolic links to siblings (40 %), optional --dereference on link-free trees with the source spelled relative/./absolute/with ..; both drivers. '
                        'distinct = distinct (text, tree, option, driver); non-trivial = option on and at least one pattern line')
     ctx.assumptions += ['git 2.39 `check-ignore --no-index` is the reference for git semantics', 'the ignore/globset crates are third-party: tied only by this differential run']
 
